@@ -50,11 +50,17 @@ package nbhttp
 //@   ensures res.headEncoded && res.bodyBuffer == old(res.bodyBuffer) && (forall q int :: q <= old(top) ==> liveP[q] == old(liveP[q]) && box(q, "[]byte") == old(box(q, "[]byte")))
 //@   assigns res.headEncoded, res.buffer, res.trailer, res.trailerSize, liveP, allboxes("[]byte"), allelems("byte"), allocates
 //@ func (*Response).formatInt
-//@   trusted
-//@   note value correctness of the hexadecimal rendering is not under contract here; only its length class
-//@   ensures 0 <= n && n <= 2147483647 ==> 1 <= len(result) && len(result) <= 10
-//@   ensures (n < 0 || n > 2147483647) ==> len(result) == 0
-//@   assigns allocates
+//@   props C09
+//@   safety index slice nil div assert panic make
+//@   note value correctness of the hexadecimal rendering is not under contract; its length class and memory safety are
+//@   requires base == 16 && len(numMap) == 16
+//@   ensures 0 <= old(n) && old(n) <= 2147483647 ==> 1 <= len(result) && len(result) <= 8
+//@   ensures (old(n) < 0 || old(n) > 2147483647) ==> len(result) == 0
+//@   assigns res.intFormatBuf, allelems("byte"), allocates
+//@   loop 1
+//@     invariant 2 <= i && i <= 10 && n >= 0 && base == 16
+//@     invariant (i == 10 ==> n <= 2147483647) && (i == 9 ==> n <= 134217727) && (i == 8 ==> n <= 8388607) && (i == 7 ==> n <= 524287) && (i == 6 ==> n <= 32767) && (i == 5 ==> n <= 2047) && (i == 4 ==> n <= 127) && (i == 3 ==> n <= 7) && (i == 2 ==> false)
+//@     decreases i
 
 //@ package mempool
 //@ func Malloc
@@ -89,4 +95,9 @@ package nbhttp
 //@   requires wired: res.Parser.Conn != nil
 //@   ensures n: result1 == nil ==> result0 == len(data)                                                               // prop C09
 //@   ensures own: ResOwn(res)                                                                                          // prop C11
+//@   note conservation: what went to the connection plus what is still buffered is what was buffered (after the head was encoded, if this call encoded it) plus the data plus, when chunked, the chunk framing
+//@   ensures conserve: result1 == nil ==> gOut - old(gOut) + buflen(res.buffer) + buflen(res.bodyBuffer) == res.gLen0 + len(data) + ite(res.chunked && len(data) > 0, res.gLenStr + 4, 0)   // prop C09
+//@   ensures written: result1 == nil && !res.chunked ==> res.bodyWritten == old(res.bodyWritten) + len(data)        // prop C09
 //@   assigns everything
+//@   at entry ghost { res.gLen0 = buflen(res.buffer) + buflen(res.bodyBuffer) }
+//@   at call:eoncodeHead#1 ghost { res.gLen0 = buflen(res.buffer) + buflen(res.bodyBuffer) }
